@@ -12,7 +12,7 @@ CLAIM = dict(
          '(zero parts, purely real/imaginary, real scalars on either side) and NaN-free f64 triples are recorded and validated event by event by TLC: '
          'rational results must equal the specification exactly; on f64 every assignment form must have the bit pattern of its binary form and z+0, 0+z, z-0, z*1, 1*z, z/1 the bit pattern of z.',
     note='Exact (decided by TLC on rationals): all Complex<Rat> results, f64 results whose exact value is representable, equality/order results, bit-pattern equality (strings). '
-         'Harness measurement (trusted Rust code, double-double reference): the f64 error in units of eps*|exact| (normwise), guard <= 8 units (a-priori bounds: sqrt(5)/2 units for the product, < 4 for the quotient). '
+         'Harness measurement (trusted Rust code, double-double reference): the f64 error in units of eps*|exact| (normwise), guard <= 8 units (a-priori bounds: sqrt(5)/2 units for the product, < 4 for the quotient), and per COMPONENT in units of eps*(|ac|+|bd|) resp. eps*(|ad|+|bc|) (over |w|^2 for quotients; the exact component for single-rounding operations), guard <= 24 units (a-priori 1 resp. 2.5), so that the small component of a product/quotient of operands with components of very different magnitude must be accurate on its own. '
          'Ordering on wide-range f64 values is validated through a strictly increasing embedding of integer ranks (0, +-1e-100..+-1e100 incl. two adjacent floats). '
          'Division by an exactly zero divisor is outside the stated domain and not judged.',
     design='4 (C13)')
@@ -43,6 +43,7 @@ def check(ctx):
     ctx.validate('Trace_ComplexField', ev, cases, 'cfield', nontrivial=nt)
     return ctx.finish(
         rule='cases: (i) every TLC-enumerated triple (z,w,v) (all operator variants on (z,w) when v = 0, order/equality on every triple), (ii) random Gaussian rationals n/d, |n| <= 9, d <= 4 (half dyadic, run on f64 too), '
-             '(iii) random f64 triples over ranks -10..10 (0, +-1e-100..+-1e100), (iv) f64 pairs with components of magnitude 1e-100..1e100 in 25 operand-shape combinations. One event per public call: '
+             '(iii) random f64 triples over ranks -10..10 (0, +-1e-100..+-1e100) incl. ties in exactly one component (either) and in both, (iv) f64 pairs with components of magnitude 1e-100..1e100 in 25 operand-shape combinations (zero parts, purely real/imaginary, equal operands), '
+             '(v) f64 pairs whose components differ by factors 1e-6..1e-20 (either component, either or both operands). The operators <, <=, >, >=, ==, != are called directly besides partial_cmp. One event per public call: '
              '4 binary, neg, conj, abs_sqr, 5 mixed real forms, 8 assignment forms (+ their binary twins), identity group, comparison group. Distinct = distinct (operation, operands, outcome).',
         trusted=['TLC', 'ComplexField.tla operators (cross-checked by the field/order laws)', 'harness projection of Complex<T> to rationals / bit strings', 'double-double reference (harness/src/dd.rs) for the f64 error units'])
